@@ -555,7 +555,8 @@ supernode of `jcol` those of `snodeBmod_spec`.  Then
     `D`: column `jcol` of `lusup` holds the forward substitution with the supernode's diagonal block on
     top and `D[row] − Σ_r L(row,r)·u_r` below, nothing else in `lusup` changed, `dense` is zero on the
     supernode's rows and `D` elsewhere, `tempv` as before (zero), `xlusup[jcol+1]` set. -/
-/- colBmod_spec_goal (NOT proved; the full statement this file aims at):
+/- colBmod_spec_goal (the full statement this file aims at; item (1) is PROVED further down as
+   `colBmod_spec` (via `colTail_spec'`), item (2) is NOT proved):
    (1) the same conclusion WITHOUT `hp : fpanelc ≤ fsupc`: when the panel starts inside `jcol`'s own
        supernode (`d_fsupc = fpanelc - fsupc > 0`) the in-supernode update uses the columns
        `fpanelc..jcol-1` only (`luptr = xlusup[fpanelc] + d_fsupc`, `ufirst = xlusup[jcol] + d_fsupc`,
@@ -699,5 +700,90 @@ theorem cCols_R2 : ∀ t (ht : t < cCols.length) i, i < cG.segsze + cG.nrow → 
     else cSt.lusup[cG.luptr + (cG.nsupr * cG.noZeros + cG.noZeros) + (t * cG.nsupr + i)]! := by decide +kernel
 example := colBmod_segment_is_supernodal_step false true 6 0 cXsup cSupno cLsub cXlsub cRepfnz 4 cSt cG rfl (by decide +kernel) cG_ok
   (fun _ => by decide +kernel) (fun _ => by decide +kernel) cCols (by decide +kernel) cCols_R1 cCols_R2
+
+/-- **C01 (`column_bmod` as a whole, EVERY `fpanelc`).**  As `colBmod_spec_partial`, without the
+restriction `fpanelc ≤ fsupc`: `fstCol = max(fsupc, fpanelc)`, `d = fstCol − fsupc` (`d_fsupc`), the
+in-supernode update uses the columns `fstCol..jcol-1` (`nsupc` of them; `luptr = xlusup[fstCol] + d`
+addresses the diagonal cell of column `fstCol`).  With `D` the `dense` left by the segment loop
+(`S nseg`, each iteration a `SegStep` from its predecessor's state) column `jcol` of `lusup` holds:
+`D` itself on the first `d` rows (they were updated through the segment loop / `panel_bmod`), the
+forward substitution `u` with the unit lower block of columns `fstCol..jcol-1` on the next `nsupc`
+rows, and `D[row] − Σ_r L(row, r)·u_r` below; nothing else in `lusup` changed; `dense` is zero on the
+supernode's rows and `D` elsewhere; `tempv` as before (zero); `xlusup[jcol+1]` set. -/
+theorem colBmod_spec (cplx segOps : Bool) (jcol nseg fpanelc : Nat) (segrep repfnz xsup supno lsub xlsub : Array Nat)
+    (st : SnodeSt K) (S : Nat → SnodeSt K)
+    (hS : S = segsUpTo cplx segOps jcol nseg fpanelc segrep repfnz xsup supno lsub xlsub st)
+    (H : ∀ k, k < nseg → SegHyp jcol fpanelc xsup supno lsub xlsub repfnz segrep[nseg - 1 - k]! st)
+    (fsupc fstCol d istart nsupr ucol luptr nsupc : Nat)
+    (e0 : fsupc = xsup[supno[jcol]!]!) (ef : fstCol = max fsupc fpanelc) (ed : d = fstCol - fsupc)
+    (e1 : istart = xlsub[fsupc]!) (e2 : nsupr = xlsub[fsupc + 1]! - istart)
+    (e3 : ucol = st.xlusup[jcol]!) (e4 : luptr = st.xlusup[fstCol]! + d) (e5 : nsupc = jcol - fstCol)
+    (hle : fstCol ≤ jcol)
+    (hinj : ∀ t u, t < nsupr → u < nsupr → lsub[istart + t]! = lsub[istart + u]! → t = u)
+    (hrow : ∀ t, t < nsupr → lsub[istart + t]! < st.dense.size)
+    (hcol : ucol + nsupr ≤ st.lusup.size) (hwid : d + nsupc ≤ nsupr)
+    (hbefore : luptr + nsupc * nsupr ≤ ucol + d)
+    (htv : nsupr - d - nsupc ≤ st.tempv.size) (htz : ∀ i, i < nsupr - d - nsupc → st.tempv[i]! = 0) :
+    S 0 = st ∧
+    (∀ k, k < nseg → SegStep jcol fpanelc xsup supno lsub xlsub repfnz segrep[nseg - 1 - k]! (S k) (S (k + 1))) ∧
+    (S nseg).dense.size = st.dense.size ∧
+    (let D := (S nseg).dense
+     let u := fwdSub (fun i r => st.lusup[luptr + (r * nsupr + i)]!) (fun _ => 1) (fun t => D[lsub[istart + (d + t)]!]!) nsupc
+     let o := colBmod cplx segOps jcol nseg fpanelc segrep repfnz xsup supno lsub xlsub st
+     o.lusup.size = st.lusup.size ∧
+     (∀ t, t < d → o.lusup[ucol + t]! = D[lsub[istart + t]!]!) ∧
+     (∀ t, t < nsupc → o.lusup[ucol + (d + t)]! = u.getD t 0) ∧
+     (∀ i, d + nsupc ≤ i → i < nsupr → o.lusup[ucol + i]! =
+       D[lsub[istart + i]!]! - ∑ r ∈ range nsupc, st.lusup[luptr + (r * nsupr + (i - d))]! * u.getD r 0) ∧
+     (∀ p, (p < ucol ∨ ucol + nsupr ≤ p) → o.lusup[p]! = st.lusup[p]!) ∧
+     o.dense.size = st.dense.size ∧
+     (∀ t, t < nsupr → o.dense[lsub[istart + t]!]! = 0) ∧
+     (∀ r, (∀ t, t < nsupr → lsub[istart + t]! ≠ r) → o.dense[r]! = D[r]!) ∧
+     o.tempv.size = st.tempv.size ∧ (∀ i : Nat, o.tempv[i]! = st.tempv[i]!) ∧
+     o.xlusup = st.xlusup.setIfInBounds (jcol + 1) (ucol + nsupr)) := by
+  subst hS
+  obtain ⟨⟨i1, i2, i3, i4, i5⟩, steps⟩ := colSegments_chain cplx segOps jcol nseg fpanelc segrep repfnz xsup supno lsub xlsub st H nseg (Nat.le_refl _)
+  refine ⟨rfl, steps, i3, ?_⟩
+  intro D u o
+  have hz : ∀ i, i < nsupc → (fun t => u.getD t 0) i = D[lsub[istart + (d + i)]!]! -
+      ∑ j ∈ range i, (fun t => u.getD t 0) j *
+        (segsUpTo cplx segOps jcol nseg fpanelc segrep repfnz xsup supno lsub xlsub st nseg).lusup[luptr + (j * nsupr + i)]! := by
+    intro i hi
+    rw [i1]
+    show u.getD i 0 = _
+    rw [fwd_rec _ _ _ nsupc i hi, div_one]
+    congr 1
+    exact Finset.sum_congr rfl (fun j _ => mul_comm _ _)
+  obtain ⟨a1, a2, a3, a4, a5, a6, a7, a8, a9, a10, a11⟩ := colTail_spec' cplx jcol fpanelc xsup supno lsub xlsub
+    (segsUpTo cplx segOps jcol nseg fpanelc segrep repfnz xsup supno lsub xlsub st nseg)
+    fsupc fstCol d istart nsupr ucol luptr nsupc e0 ef ed e1 e2 (by rw [i2]; exact e3) (by rw [i2]; exact e4) e5 hle hinj
+    (fun t ht => by rw [i3]; exact hrow t ht) (by rw [i1]; exact hcol) hwid hbefore (by rw [i4]; exact htv)
+    (fun i hi => by rw [i5]; exact htz i hi) (fun t => u.getD t 0) hz
+  rw [i1] at a1 a4 a5
+  rw [i2] at a11
+  exact ⟨a1, a2, a3, a4, a5, a6.trans i3, a7, a8, a9.trans i4, fun i => (a10 i).trans (i5 i), a11⟩
+
+/-! `colBmod_spec` on the example above (`fstCol = 5`, `d = 0`, `ucol = 38`, `luptr = 35`, `nsupc = 1`) -/
+example := colBmod_spec false true 6 1 0 cSegrep cRepfnz cXsup cSupno cLsub cXlsub cSt _ rfl
+  (fun k hk => by
+    obtain rfl : k = 0 := by omega
+    exact fun _ => ⟨cG_ok, fun _ => ⟨by decide +kernel, by decide +kernel⟩⟩)
+  5 5 0 7 3 38 35 1 (by decide +kernel) (by decide +kernel) (by decide) (by decide +kernel) (by decide +kernel)
+  (by decide +kernel) (by decide +kernel) (by decide) (by decide) (fun t u ht hu => cTail_distinct t ht u hu)
+  (by decide +kernel) (by decide +kernel) (by decide) (by decide) (by decide +kernel) (by decide +kernel)
+
+/-! and with the panel starting INSIDE the column's supernode: the first supernode (columns 0..4, 7
+rows) taken as the current one, `jcol = 4`, `fpanelc = 2`: `fstCol = 2`, `d = 2`, `nsupc = 2`,
+`ucol = 28`, `luptr = xlusup[2] + 2 = 16`, no listed segment -/
+example : (colBmod false true 4 0 2 #[] cRepfnz cXsup cSupno cLsub cXlsub cSt).lusup.extract 28 35 = #[-1, -2, 2, -2, -4, 5, -2] := by
+  decide +kernel
+example : (colBmod true true 4 0 2 #[] cRepfnz cXsup cSupno cLsub cXlsub cSt).lusup.extract 28 35 = #[-1, -2, 2, -2, -4, 5, -2] := by
+  decide +kernel
+theorem cHead_distinct : ∀ t, t < 7 → ∀ u, u < 7 → cLsub[0 + t]! = cLsub[0 + u]! → t = u := by decide +kernel
+example := colBmod_spec false true 4 0 2 #[] cRepfnz cXsup cSupno cLsub cXlsub cSt _ rfl
+  (fun k hk => absurd hk (by omega))
+  0 2 2 0 7 28 16 2 (by decide +kernel) (by decide +kernel) (by decide) (by decide +kernel) (by decide +kernel)
+  (by decide +kernel) (by decide +kernel) (by decide) (by decide) (fun t u ht hu => cHead_distinct t ht u hu)
+  (by decide +kernel) (by decide +kernel) (by decide) (by decide) (by decide +kernel) (by decide +kernel)
 
 end Slu.ColBmod
